@@ -21,6 +21,7 @@ std::string Step::json() const{
     if (scale_mode) j.i("scale_mode", scale_mode);
     if (!aw.empty()) j.vec("aw", aw);
     if (kind == cand_load) j.num("frac", frac);
+    if (kind == cand_load && scatter) j.i("scatter", 1);
     if (kind == load || kind == reload || kind == cand_load) j.i("gen", gen);
     return j.obj();
 }
@@ -193,6 +194,7 @@ Step choose_step(HState const &h, Rng &rng, HOpts const &o){
             }
             if (pass_limits) s.limits = gen_limits(rng, dims, cur_depth + 1);
             s.frac = rng.coin(0.3) ? 1.0 : rng.uni(0.2, 0.9);
+            if (o.scatter_candidates > 0.0 && rng.coin(o.scatter_candidates)){ s.scatter = true; s.frac = rng.uni(0.02, 0.6); }
             break;
         default: break;
     }
@@ -330,6 +332,11 @@ std::string apply_step(TasmanianSparseGrid &g, Step const &s, HState *h){
                 take = std::min<size_t>(take, 60);
                 // candidates are sorted by priority: take mostly from the front but shuffle the delivery order
                 std::vector<size_t> chosen;
+                if (s.scatter){ // uniformly random subset: irregular (but admissible) point sets
+                    for(size_t i=nc; i>1; i--) std::swap(ord[i-1], ord[(size_t) r.range(0, (int) i - 1)]);
+                    take = std::min<size_t>(take, 40);
+                    chosen.assign(ord.begin(), ord.begin() + (long) std::min(take, nc));
+                }else
                 for(size_t i=0; i<nc && chosen.size() < take; i++) if (s.frac >= 1.0 || r.coin(0.8)) chosen.push_back(i);
                 for(size_t i=chosen.size(); i>1; i--) std::swap(chosen[i-1], chosen[(size_t) r.range(0, (int) i - 1)]);
                 std::vector<double> x, y;
